@@ -128,11 +128,28 @@ def judge(res, run, limit, desc, golden_fault=None):
     starts = [e for e in run.events if e['ev'] == 'exec_start']
     checks = [e for e in run.events if e['ev'] == 'check']
     if run.timed_out:
-        if len(starts) > len(execs):
+        # The watchdog is no verdict by itself: a run with many candidates
+        # that use up their limit is long, and most of its time is spent
+        # inside execute().  A stall is an execute() that has been pending
+        # for longer than its own limit plus the grace period.
+        now = run.watchdog_fired_at
+        stalled = None
+        for e in sorted(starts, key=lambda e: e['t']):
+            ended = any(x['pid'] == e['pid'] and x['tid'] == e['tid']
+                        and x['t'] >= e['t'] for x in execs)
+            if ended or now is None:
+                continue
+            t = e.get('timeout') or limit
+            if now - e['t'] > t + GRACE:
+                stalled = (e, now - e['t'], t)
+                break
+        if stalled:
             witness['stacks'] = run.stderr[-3000:]
+            witness['pending_execute'] = stalled[0]
             res.violation('execute-stalls',
-                          'ddSMT was still waiting inside checker.execute '
-                          'when the watchdog fired', witness)
+                          f'when the watchdog fired, one checker.execute had '
+                          f'been pending for {stalled[1]:.1f} s with a limit '
+                          f'of {stalled[2]} s', witness)
         else:
             res.count('runs_watchdog')
         return
